@@ -12,7 +12,6 @@ use common::*;
 use std::collections::BTreeMap;
 use vharness::*;
 
-const SIG: &str = "C13/index-ddl-in-transaction";
 
 /// everything a client can observe; key -> canonical text
 fn observe13(db: &mut Db, with_queries: bool) -> BTreeMap<String, String> {
@@ -135,12 +134,9 @@ fn run_txn_case(c: &TxnCase, model: &mut model::Model, rep: &mut Report, label: 
     let want = if c.commit { &last } else { &before };
     let d = diff(want, &after);
     if !d.is_empty() {
-        // narrow class of the recorded finding: the transaction executed CREATE/DROP INDEX (the
-        // hypothesis NotIndexDdl of C13_rollback_restores_partial is violated) AND nothing but the
-        // index list / index data / index-driven plans differs: rows and constraint indexes of
-        // every table and the table list must still be restored
-        let only_index_things = d.iter().all(|k| k == "list_indexes" || k.starts_with("user_index_data:"));
-        let sig = if !c.commit && index_ddl && only_index_things { Some(SIG) } else { None };
+        // (index DDL inside a transaction used to survive ROLLBACK — repaired by 650ff828; no
+        // failure class is excused any more)
+        let sig: Option<&str> = None;
         let mut detail = String::new();
         for k in &d {
             detail.push_str(&format!("-- {}:\n--   expected {}\n--   got      {}\n", k, want.get(k).cloned().unwrap_or("<absent>".into()), after.get(k).cloned().unwrap_or("<absent>".into())));
@@ -265,9 +261,9 @@ fn probes() -> Vec<(&'static str, TxnCase)> {
         ("truncate-in-txn", TxnCase { schema: s2.clone(), pre: pre.clone(), body: vec![Stmt::Truncate, Stmt::Insert(vec![vec![v(1), v(5)]])], commit: false }),
         ("create-drop-table-in-txn", TxnCase { schema: s2.clone(), pre: pre.clone(), body: vec![Stmt::Raw("CREATE TABLE u (k INT PRIMARY KEY, w INT)".into()), Stmt::Raw("INSERT INTO u VALUES (1, 1)".into())], commit: false }),
         ("commit-keeps", TxnCase { schema: s2.clone(), pre: pre.clone(), body: vec![Stmt::Delete(Pred::Cmp(0, "=", v(1))), Stmt::Insert(vec![vec![v(9), v(2)]])], commit: true }),
-        // the recorded finding, reproduced on every run
-        ("create-index-in-txn (known finding)", TxnCase { schema: s2.clone(), pre: pre.clone(), body: vec![Stmt::CreateIndex("zz".into(), vec![0, 1], false)], commit: false }),
-        ("drop-index-in-txn (known finding)", TxnCase { schema: s2.clone(), pre: pre.clone(), body: vec![Stmt::DropIndex("qv".into())], commit: false }),
+        // repaired defect 650ff828, kept as regression probes
+        ("create-index-in-txn (regression: 650ff828)", TxnCase { schema: s2.clone(), pre: pre.clone(), body: vec![Stmt::CreateIndex("zz".into(), vec![0, 1], false)], commit: false }),
+        ("drop-index-in-txn (regression: 650ff828)", TxnCase { schema: s2.clone(), pre: pre.clone(), body: vec![Stmt::DropIndex("qv".into())], commit: false }),
     ]
 }
 
